@@ -391,4 +391,48 @@ class Kinds(object):
         return observe(mods, truth, kb, sig)
 
 
-FAMILIES = [Shapes(), Spellings(), Kinds()]
+class SameNames(object):
+    name = 'D-same-name-in-two-modules'
+    describe = ('module A and module B each define a node with the SAME name (names are per module); B also hangs nodes below a '
+                'node imported from A whose parent chain passes through A\'s node of that name; every declaration order of B, '
+                'both request orders, 1-3 levels below the imported node, spelled by name / name(number)')
+
+    def blocks(self, tier):
+        return [{'depth': d} for d in (1, 2, 3)]
+
+    def cases(self, block, tier):
+        n = 3 + block['depth']
+        for perm in itertools.permutations(range(n)):
+            if tier != 'thorough' and n > 4 and perm[0] not in (0, n - 1):
+                continue
+            for ro in (0, 1):
+                yield {'depth': block['depth'], 'perm': list(perm), 'ro': ro}
+
+    def run_case(self, case):
+        a = [{'k': 'value', 'name': 'shared', 'oid': ['enterprises', 7]},
+             {'k': 'value', 'name': 'leafA', 'oid': ['shared', 70]},
+             {'k': 'value', 'name': 'otherA', 'oid': ['leafA', 4]}]
+        b = [{'k': 'value', 'name': 'shared', 'oid': ['enterprises', 48]},
+             {'k': 'value', 'name': 'underOwn', 'oid': ['shared', 1]},
+             {'k': 'value', 'name': 'underImported', 'oid': ['leafA', 2]}]
+        truth = {'ALPHA-MIB': {'shared': ENTERPRISES + (7,), 'leafA': ENTERPRISES + (7, 70), 'otherA': ENTERPRISES + (7, 70, 4)},
+                 'BETA-MIB': {'shared': ENTERPRISES + (48,), 'underOwn': ENTERPRISES + (48, 1),
+                              'underImported': ENTERPRISES + (7, 70, 2)}}
+        prev = 'underImported'
+        for d in range(1, case['depth']):
+            nm = 'deeper%d' % d
+            b.append({'k': 'value', 'name': nm, 'oid': [prev, 5] if d % 2 else ['leafA', ['underImported', 2]] + [5] * d})
+            truth['BETA-MIB'][nm] = truth['BETA-MIB']['underImported'] + (5,) * d
+            prev = nm
+        b.append({'k': 'value', 'name': 'lastOwn', 'oid': ['underOwn', 9]})
+        truth['BETA-MIB']['lastOwn'] = ENTERPRISES + (48, 1, 9)
+        b = [b[i] for i in case['perm']]
+        mods = [{'name': 'ALPHA-MIB', 'imports': [('SNMPv2-SMI', ['enterprises'])], 'decls': a},
+                {'name': 'BETA-MIB', 'imports': [('ALPHA-MIB', ['leafA']), ('SNMPv2-SMI', ['enterprises'])], 'decls': b}]
+        if case['ro']:
+            mods.reverse()
+        kinds = dict((d['name'], 'value') for d in a + b)
+        return observe(mods, truth, kinds, 'C01|D|same-name')
+
+
+FAMILIES = [Shapes(), Spellings(), Kinds(), SameNames()]
